@@ -99,14 +99,81 @@ func c10Reset(e *Env, s *Sched) {
 	for _, lits := range expanded {
 		set := ir.Restrict(lits, isRecorded, s.NS)
 		// a disjunct forced by the upstream mark (retry[u]) says nothing about the node's own recorded state
+		var markLk *ssa.Lookup
 		forced := HasVal(lits, func(v ssa.Value) bool {
 			lk, ok := ir.Resolve(v).(*ssa.Lookup)
 			if !ok {
 				return false
 			}
 			mt, ok := lk.X.Type().Underlying().(*types.Map)
-			return ok && mt.Elem().String() == "bool"
+			if ok && mt.Elem().String() == "bool" {
+				markLk = lk
+				return true
+			}
+			return false
 		}, true)
+		// ... and the mark itself may have been set, earlier in the same iteration, from
+		// the node's own recorded state (`switch recorded[u] { case failed, ...: mark[u] =
+		// true }; if mark[u] { reset }`): the states under which that update is made are
+		// states under which the node is reset
+		if forced && markLk != nil {
+			for _, b := range fn.Blocks {
+				if !inner.Blocks[b] {
+					continue
+				}
+				for _, in := range b.Instrs {
+					mu, isMU := in.(*ssa.MapUpdate)
+					if !isMU || ir.Resolve(mu.Map) != ir.Resolve(markLk.X) || ir.Resolve(mu.Key) != ir.Resolve(markLk.Index) {
+						continue
+					}
+					if bv, isC := ir.ConstBool(mu.Value); !isC || !bv {
+						continue
+					}
+					// made earlier in the same iteration: the test is reachable from the
+					// update without going round the loop
+					reach := false
+					seenB := map[*ssa.BasicBlock]bool{}
+					work := []*ssa.BasicBlock{mu.Block()}
+					for len(work) > 0 {
+						x := work[0]
+						work = work[1:]
+						if seenB[x] {
+							continue
+						}
+						seenB[x] = true
+						if x == markLk.Block() && (x != mu.Block() || ir.Precedes(mu, markLk)) {
+							reach = true
+						}
+						for _, sx := range x.Succs {
+							if sx != inner.Header && inner.Blocks[sx] {
+								work = append(work, sx)
+							}
+						}
+					}
+					if !reach {
+						continue
+					}
+					mdnf, okM := ir.ReachingCondition(body, mu.Block(), 32)
+					if !okM {
+						continue
+					}
+					for _, cj := range mdnf {
+						for _, conj := range ff.ExpandDNFRegion(body, []ir.Lit(cj)) {
+							for _, ml := range e.expandHelperCalls(ir.NormalizeAll(conj), 0) {
+								st := ir.Restrict(ml, isRecorded, s.NS)
+								if len(st) == len(s.NS)+1 || len(st) == 0 {
+									continue // says nothing about the recorded state
+								}
+								facts = append(facts, "mark set under: {"+strings.Join(e.RenderN(ml), " ; ")+"}")
+								for v := range st {
+									resetSet[v] = true
+								}
+							}
+						}
+					}
+				}
+			}
+		}
 		facts = append(facts, "disjunct: {"+strings.Join(e.RenderN(lits), " ; ")+"}")
 		if !forced {
 			for v := range set {
